@@ -185,6 +185,7 @@ class World:
         self.reverse_sets = False
         self.state_log = []
         self.fs_events = False  # deliver filesystem-watcher events (multi-process token model)
+        self.silent_kill = False  # exit code -9 = killed without writing a marker (restart scenarios)
         self.fs_snapshot = {}
         self.reqs = {}  # job key -> token request (capacity monitor across schedulers)
 
@@ -463,7 +464,7 @@ class VerifProcessBuilder:
             code = w.codes.get(key, 0)
             if code == 0:
                 job.donepath.touch()
-            elif code == -9:
+            elif w.silent_kill and code == -9:
                 pass  # killed outright (SIGKILL, OOM): the runner writes no marker
             else:
                 job.failedpath.write_text("1")
